@@ -744,7 +744,7 @@ EXPECTED_SHAPE = {
         '{ R:requests if v:request { v:request } else { v:request } try { if and( R:connected , not R:will_cl'
         'ose , ) { v:task m:service call:service() } else { v:task } } except:ClientDisconnected { v:task R:r'
         'equest v:task } except:BaseException { v:task R:request if not v:task { if { v:traceback } else { } '
-        'v:request v:request v:InternalServerError v:body v:err_request v:req_version v:err_request try { v:r'
+        'v:request v:request v:InternalServerError v:body v:err_request v:req_version v:err_request v:getattr v:request v:err_request try { v:r'
         'eq_headers v:err_request } except:KeyError { } v:err_request try { v:task m:service call:service() }'
         ' except:ClientDisconnected { v:task } } else { v:task } } if v:task { R:requests_lock with { W:close'
         '_when_flushed for R:requests { v:request m:close call:close() } W:requests } } else { if v:len R:req'
